@@ -802,6 +802,17 @@ class Engine:
                 k = term[0]
                 if k == 'goto':
                     bb = term[1]
+                elif k == 'drop':
+                    # drop glue matters only for the few stubbed std types whose Drop has an observable effect (BufWriter: flush, errors ignored)
+                    if term[1] is not None:
+                        try:
+                            dv = self.place_cell(f, loc, term[1]).v
+                        except (Unsupported, KeyError):
+                            dv = None
+                        hook = getattr(dv, 'on_drop', None) if isinstance(dv, Opaque) else None
+                        if hook is not None:
+                            hook(self, dv)
+                    bb = term[2]
                 elif k == 'call':
                     av = [self.operand(f, loc, a) for a in term[3]]
                     r = self.call(term[2], av)
